@@ -268,3 +268,63 @@ def dtype_twin(a):
             return a.astype(np.int64)
         return None
     return a.astype(float)
+
+
+# ---------------------------------------------------------------------------------------------------------------------
+# the same parameter VALUE in another Python type: flags computed with NumPy are numpy.bool_, counts read from a file
+# are numpy integers of some width or 0-d arrays, names read from a configuration are not the interned literals, ...
+# ---------------------------------------------------------------------------------------------------------------------
+
+ARGREPS = ("plain", "np", "0d", "alt")
+
+
+def pick_argrep(rng, p_plain=0.6):
+    r = rng.random()
+    if r < p_plain:
+        return "plain"
+    return ARGREPS[1 + int((r - p_plain) / (1 - p_plain) * 3) % 3]
+
+
+def flag(b, rep="plain"):
+    """a boolean parameter: the literal, numpy.bool_ (what a NumPy comparison yields), a 0-d bool array, or 0 / 1"""
+    b = bool(b)
+    return {"plain": b, "np": np.bool_(b), "0d": np.array(b), "alt": int(b)}[rep]
+
+
+def count(n, rep="plain", narrow=True):
+    """an integer parameter: int, the narrowest NumPy integer type that holds it (or int64), a 0-d array, int32"""
+    n = int(n)
+    if rep == "plain":
+        return n
+    if rep == "np":
+        if narrow:
+            for t in (np.int8, np.int16, np.int32):
+                if np.iinfo(t).min <= n <= np.iinfo(t).max:
+                    return t(n)
+        return np.int64(n)
+    if rep == "0d":
+        return np.array(n)
+    return np.int32(n)
+
+
+def real(v, rep="plain"):
+    """a real parameter: float, numpy.float64, a 0-d float array (mutable!), a one-element view squeezed to 0-d"""
+    v = float(v)
+    if rep == "plain":
+        return v
+    if rep == "np":
+        return np.float64(v)
+    if rep == "0d":
+        return np.array(v)
+    return np.array([v, 0.0])[:1].squeeze()
+
+
+def text(s, rep="plain"):
+    """a name: the literal, numpy.str_, an equal string that is not the interned literal (read from a file), a str subclass"""
+    if rep == "plain":
+        return s
+    if rep == "np":
+        return np.str_(s)
+    if rep == "0d":
+        return "".join(list(s))
+    return str(bytes(s, "ascii"), "ascii")
